@@ -1,6 +1,7 @@
 import Mathlib.Tactic
 import ExponaxModel.Model.Layout
 import ExponaxModel.Proofs.LayoutLemmas
+import ExponaxModel.Proofs.DFT
 /-
 C04 — grid, FFT and Fourier-coefficient conventions are mutually consistent.
 Index / layout part (all `N`, no bound).  The DFT part (round trip, single-mode
@@ -8,7 +9,7 @@ read-off) is in `Proofs/DFT*.lean` and imported below once available.
 -/
 set_option linter.unusedVariables false
 namespace Exponax
-open Exponax.Layout
+open Exponax.Layout Exponax.Transform Exponax.DFT Finset
 
 /-- the stored leading-axis entry `i` names a wavenumber congruent to `i` modulo `N` … -/
 theorem C04_fftfreq_congr (N i : ℕ) (hi : i < N) : (fftfreq N i - (i : ℤ)) % (N : ℤ) = 0 := by
@@ -134,6 +135,41 @@ theorem C04_slices_block (N : ℕ) (hN : 2 ≤ N) (hs : List ℕ) (hl : ℕ) (hh
   mem_modeBlocks_inBlock_iff N hN hs hl hhs hhl b
 
 theorem C04_slices_count (D N : ℕ) : (modeBlocks D N).length = 2 ^ (D - 1) := modeBlocks_length D N
+
+/-! ### transforms (`Transform.rfftnM` / `irfftnM` are the DFT sums `jnp.fft.rfftn/irfftn` compute; the
+tie to the implementation — also on non-Hermitian input — is the numerical correspondence) -/
+
+/-- ROUND TRIP: the inverse transform undoes the forward transform for every real state, every
+    dimension `D ≥ 1`, every `N ≥ 1` (odd and even) -/
+theorem C04_roundtrip (D N : ℕ) (hD : 0 < D) (hN : 0 < N) (x : ℕ → ℝ) :
+    irfftnM D N (rfftnM D N (tab (N ^ D) (fun j => ((x j : ℝ) : ℂ)))) = tab (N ^ D) (fun j => ((x j : ℝ) : ℂ)) :=
+  irfftn_rfftn_ofReal D N hD hN x
+
+theorem C04_roundtrip_entry (D N : ℕ) (hD : 0 < D) (hN : 0 < N) (u : Array ℂ)
+    (hu : ∀ j < N ^ D, (u.getD j 0).im = 0) (j : ℕ) (hj : j < N ^ D) :
+    (irfftnM D N (rfftnM D N u)).getD j 0 = u.getD j 0 :=
+  irfftn_rfftn D N hD hN u hu j hj
+
+/-- SINGLE MODE (1-D): `a·cos(2πkx/L + φ)` sampled on the grid appears in exactly the stored mode `k`, with
+    `(a/2)e^{iφ}·N` there (`a·cos φ·N` for the self-conjugate modes `k = 0`, `2k = N`) and `0` elsewhere -/
+theorem C04_single_mode_1d (N : ℕ) (hN : 0 < N) (k h : ℕ) (hk : k ≤ N / 2) (hh : h ≤ N / 2) (a φ : ℝ) :
+    (rfftnM 1 N (tab N (fun j => (((a * Real.cos (2 * Real.pi * k * j / N + φ)) : ℝ) : ℂ)))).getD h 0
+      = if h = k then
+          (if k = 0 ∨ 2 * k = N then (((a * Real.cos φ * N) : ℝ) : ℂ)
+           else (a / 2 : ℂ) * Complex.exp (φ * Complex.I) * (N : ℂ))
+        else 0 :=
+  rfft_single_mode_1d N hN k h hk hh a φ
+
+/-- stored coefficient `h` is the DFT sum over the grid with the phase `k(h)·j` named by the wavenumber array -/
+theorem C04_rfftn_formula (D N : ℕ) (hN : 0 < N) (u : Array ℂ) (h : ℕ) (hh : h < numModes D N) :
+    (rfftnM D N u).getD h 0 = ∑ j ∈ range (N ^ D), u.getD j 0 * twiddle N (phaseK D N (wnFlat D N h) j) :=
+  rfftnM_getD D N hN u h hh
+
+/-- Parseval in the half layout with the "reconstruction" weights (1 on the last-axis DC/Nyquist columns, else 2) -/
+theorem C04_parseval (D N : ℕ) (hD : 0 < D) (hN : 0 < N) (u : Array ℂ) (hu : ∀ j < N ^ D, (u.getD j 0).im = 0) :
+    ∑ j ∈ range (N ^ D), ‖u.getD j 0‖ ^ 2
+      = (1 / ((N ^ D : ℕ) : ℝ)) * ∑ h ∈ range (numModes D N), (herm_weight D N h : ℝ) * ‖(rfftnM D N u).getD h 0‖ ^ 2 :=
+  parseval_nd D N hD hN u hu
 
 /-! non-vacuity / concrete layout -/
 example : (List.range 6).map (fftfreq 6) = [0, 1, 2, -3, -2, -1] := by decide
